@@ -136,3 +136,43 @@ Example C19_small_cache_premises_satisfiable :
   = [Some (true, true, 0%nat); Some (true, true, 0%nat); Some (true, true, 0%nat)]
   /\ Forall (op_ok Examples.db) Examples.ops_small.
 Proof. exact midstore_eviction_now. Qed.
+
+(** ** The caller's part: case normalisation *)
+
+(** [DNSFilter.CheckHost] hands the checkers the lower-case form of the name
+    (whether or not rule-list filtering is on for the request): two spellings
+    of one name give the same hashes, question, verdict and cache, so the
+    spelling of the request (DNS 0x20) reaches neither the lookup service nor
+    the verdict; [C19_enumeration], [C19_verdict] and [C19_cache_transparent]
+    apply to the lower-case form. *)
+Theorem C19_case_normalised : forall sha pubsuf suffix ct svc order evs now h1 h2 c,
+  lower h1 = lower h2 ->
+  check_host sha pubsuf suffix ct svc order evs now h1 c
+  = check_host sha pubsuf suffix ct svc order evs now h2 c.
+Proof. exact check_host_spelling. Qed.
+Print Assumptions C19_case_normalised.
+
+Theorem C19_caller_checks_lower_case : forall sha pubsuf suffix ct svc order evs now h c,
+  check_host sha pubsuf suffix ct svc order evs now h c
+  = check sha pubsuf suffix ct svc order evs now (lower h) c /\
+  check_host sha pubsuf suffix ct svc order evs now (lower h) c
+  = check_host sha pubsuf suffix ct svc order evs now h c.
+Proof. exact check_host_lower. Qed.
+Print Assumptions C19_caller_checks_lower_case.
+
+(** Only prefixes leave, through the caller as well: the question is
+    determined by the prefixes of the hashes of the names enumerated from the
+    lower-case form. *)
+Theorem C19_only_prefixes_caller : forall sha pubsuf suffix ct svc1 svc2 order1 order2 evs1 evs2
+    now c host1 host2 q1 q2,
+  map prefix_of (hostname_to_hashes sha pubsuf (lower host1))
+    = map prefix_of (hostname_to_hashes sha pubsuf (lower host2)) ->
+  o_question (snd (check_host sha pubsuf suffix ct svc1 order1 evs1 now host1 c)) = Some q1 ->
+  o_question (snd (check_host sha pubsuf suffix ct svc2 order2 evs2 now host2 c)) = Some q2 ->
+  q1 = q2.
+Proof. exact check_host_question_only_prefixes. Qed.
+Print Assumptions C19_only_prefixes_caller.
+
+Example C19_caller_premises_satisfiable :
+  caller_name [87; 87; 87; 46; 69; 118; 105; 108; 46; 67; 79; 77]%N = [119; 119; 119; 46; 101; 118; 105; 108; 46; 99; 111; 109]%N.
+Proof. exact caller_example. Qed.
